@@ -70,12 +70,12 @@ def tokenize(
             continue
         if quote_context and quote_context[-1] in "}`%" and char == quote_context[-1]:
             quote_context.pop(-1)
-            if token:
-                if quote_context:
-                    token.update(char, i)
-                else:
+            if quote_context:
+                token.update(char, i)
+            else:
+                if token:
                     yield token
-                    token = Token(source=formula)
+                token = Token(source=formula)
             continue
         if quote_context and char == quote_context[-1]:
             token.update(char, i)
